@@ -67,7 +67,11 @@ func genFault(r *hx.Rand, a *Assets, where []location) (*Assets, string) {
 	if f == nil {
 		return nil, ""
 	}
-	switch r.Intn(6) {
+	switch r.Intn(8) {
+	case 6, 7: // the flow is still there but was edited so that it no longer validates (the loader rejects it)
+		if f.corrupt(r, loc.Node) {
+			return b, fmt.Sprintf("flow %d edited, no longer valid (%s at node %d)", loc.Flow, f.Corrupt, f.CorruptNode)
+		}
 	case 0: // the flow is deleted
 		var out []*Flow
 		for _, x := range b.Flows {
@@ -219,6 +223,53 @@ func runHistory(prop string, r *hx.Rand, h *History, w *world, first *CallObs, a
 	return calls
 }
 
+// rawFlow finds a flow of the store whether or not it is loadable
+func (a *Assets) rawFlow(id int) *Flow {
+	for _, f := range a.Flows {
+		if f.ID == id {
+			return f
+		}
+	}
+	return nil
+}
+
+// nearlyValidStart handles a history whose TRIGGER flow violates a load-time rule.  The loader must reject it:
+// NewSession returns a Go error (that is the API for an invalid definition, not a violation) and the history ends
+// there, outside the model.  A panic or a hang is a failure.  If the definition is ACCEPTED (a weakened validation),
+// the history is run with the direct oracles only - the model has no such flow - so that whatever the clauses of
+// the property rely on validation for shows up as a failing input.  Reports whether the history was handled here.
+func nearlyValidStart(prop string, r *hx.Rand, h *History, w *world, first *CallObs, res *hx.Result) bool {
+	return nearlyValidStartFixed(prop, h, w, first, res, nil)
+}
+
+func nearlyValidStartFixed(prop string, h *History, w *world, first *CallObs, res *hx.Result, fixed []Op) bool {
+	tf := h.Assets.rawFlow(h.Trigger.Flow)
+	if tf == nil || tf.Corrupt == "" {
+		return false
+	}
+	key, _ := json.Marshal(historyJSON(h))
+	switch first.Kind {
+	case 2:
+		res.Dist("nearly-valid-trigger-flow:rejected:" + tf.Corrupt)
+		res.Eval(string(key), false)
+	case 3, 5:
+		res.Fail(prop+":invalid-definition-not-rejected-cleanly:"+tf.Corrupt, historyJSON(h), "loading a definition that violates a validation rule panicked or hung: "+first.Err)
+		if first.Kind == 5 {
+			hung = true
+		}
+	default:
+		// accepted: run it with the oracles (not emitted for the model)
+		res.Dist("nearly-valid-trigger-flow:ACCEPTED:" + tf.Corrupt)
+		ops := fixed
+		if ops == nil {
+			ops = []Op{{Kind: "timeout"}, {Kind: "msg", Text: "a"}, {Kind: "timeout"}, {Kind: "msg", Text: "zz"}, {Kind: "expiration"}}
+		}
+		runHistory(prop, nil, h, w, first, h.Assets, res, ops)
+		res.Eval(string(key), true)
+	}
+	return true
+}
+
 // replayInput rebuilds a history from the "input" of a replay file (failing_input or first_mismatching_case)
 func replayInput(path string) (*History, []Op, error) {
 	raw, err := os.ReadFile(path)
@@ -353,6 +404,10 @@ func main() {
 		h := &History{Assets: ch.Assets, Trigger: ch.Trigger}
 		w := &world{}
 		first := w.start(h)
+		if nearlyValidStartFixed(prop, h, w, first, res, ch.Ops) {
+			res.Dist("corpus")
+			continue
+		}
 		if calls := runHistory(prop, nil, h, w, first, h.Assets, res, ch.Ops); calls != nil {
 			emit(1+ci, h, calls)
 		}
@@ -375,11 +430,21 @@ func main() {
 		for t := 0; ; t++ {
 			a = genAssets(r, cfg)
 			h = &History{Assets: a, Trigger: genTrigger(r, a)}
+			if r.Chance(1, 10) {
+				// a nearly valid definition: one flow violates exactly one load-time rule
+				fl := a.Flows[r.Intn(len(a.Flows))]
+				if len(fl.Nodes) > 0 {
+					fl.corrupt(r, fl.Nodes[r.Intn(len(fl.Nodes))].ID)
+				}
+			}
 			w = &world{}
 			first = w.start(h)
 			if t+1 >= tries || first.Kind != 0 || first.Session.Status() == "waiting" || r.Chance(1, 5) {
 				break
 			}
+		}
+		if nearlyValidStart(prop, r, h, w, first, res) {
+			continue
 		}
 		if calls := runHistory(prop, r, h, w, first, a, res, nil); calls != nil {
 			emit(i, h, calls)
@@ -519,6 +584,39 @@ func corpus(prop string) []corpusCase {
 		{ID: 2, Nodes: []*Node{plain(201, enter(3, false), enter(9, false))}},
 		{ID: 3, Nodes: []*Node{plain(301, Action{Kind: "send_msg", Text: "a"})}}}},
 		Trigger: Trigger{Kind: "manual", Flow: 1}, Ops: []Op{}})
+	// nearly valid definitions (wave-3 seeded mutants): the timeout category of a wait names ANOTHER node's exit -
+	// the loader must reject the flow; if a weakened validation accepts it, the wait_timeout resume leaves the
+	// step through an exit that is not on its node
+	{
+		wn := waitNode(101)
+		wn.Router.Wait.HasTimeout, wn.Router.Wait.Seconds, wn.Router.Wait.TimeoutCat = true, 60, 1
+		wn.Router.Cats = append(wn.Router.Cats, Category{Name: "Timeout", Exit: 1011})
+		other := plain(102, Action{Kind: "send_msg", Text: "b"})
+		out = append(out, corpusCase{Assets: &Assets{Opts: std, Flows: []*Flow{
+			{ID: 1, Nodes: []*Node{wn, other}, Corrupt: "timeout-category-foreign-exit", CorruptNode: 101}}},
+			Trigger: Trigger{Kind: "manual", Flow: 1}, Ops: []Op{{Kind: "timeout"}, {Kind: "msg", Text: "a"}}})
+	}
+	if prop == "C10" || prop == "C01" {
+		// the waiting run's flow, or its parent's flow, is still present between sprints but no longer validates
+		for _, which := range []int{2, 1} {
+			mk := func(corrupt bool) *Assets {
+				p := plain(101, enter(2, false))
+				p.Exits[0].Dest = 102
+				wn := waitNode(201)
+				wn.Exits[0].Dest = 202
+				a := &Assets{Opts: std, Flows: []*Flow{
+					{ID: 1, Nodes: []*Node{p, plain(102, Action{Kind: "send_msg", Text: "b"})}},
+					{ID: 2, Nodes: []*Node{wn, plain(202, Action{Kind: "send_msg", Text: "c"})}}}}
+				if corrupt {
+					f := a.rawFlow(which)
+					f.Corrupt, f.CorruptNode = "dangling-destination", f.Nodes[0].ID
+				}
+				return a
+			}
+			out = append(out, corpusCase{Assets: mk(false), Trigger: Trigger{Kind: "manual", Flow: 1},
+				Ops: []Op{{Kind: "msg", Text: "a", Assets: mk(true), Fault: fmt.Sprintf("flow %d edited, no longer valid (dangling-destination)", which)}, {Kind: "msg", Text: "b"}}})
+		}
+	}
 	if prop == "C05" {
 		// F5: limits below the length of the ellipsis / below zero
 		for _, lim := range []int{0, 1, 2} {
